@@ -314,8 +314,10 @@ class SymCtx:
     def cover(self, target):
         self.covered[target] = self.covered.get(target, 0) + 1
 
-    def observe(self, name, value):
-        self.obs.append((name, value))
+    def observe(self, name, value, post=None):
+        """Record a value for witness validation; *post* (if given) is
+        applied to the concrete value (after model evaluation)."""
+        self.obs.append((name, value, post))
 
     def decode(self, model):
         out = {}
@@ -359,7 +361,8 @@ class SymCtx:
             if isinstance(v, dict):
                 return {str(k): ev(x) for k, x in v.items()}
             return jsonable(v)
-        return [[name, ev(v)] for name, v in self.obs]
+        return [[name, jsonable(post(ev(v))) if post else ev(v)]
+                for name, v, post in self.obs]
 
     def require(self, cond, label, key=None, detail=None):
         """Obligation: *cond* holds for every value of the inputs here."""
@@ -502,9 +505,11 @@ class ConcreteCtx:
     def cover(self, target):
         self.covered[target] = 1
 
-    def observe(self, name, value):
+    def observe(self, name, value, post=None):
         if isinstance(value, Summary):
             value = [[k, x] for k, x in value.describe()]
+        if post:
+            value = post(value)
         self.obs.append([name, jsonable(value)])
 
     def require(self, cond, label, key=None, detail=None):
